@@ -225,6 +225,7 @@ Proof.
   apply has_dup_false in Hdup.
   unfold table_fits in Hfit.
   destruct (place adds 0) as [placed size] eqn:Epl. cbn [snd] in Hfit.
+  destruct (65535 <? size + 4); [discriminate|].
   pose proof (place_fst_map adds 0) as Hmapf. rewrite Epl in Hmapf. cbn [fst] in Hmapf.
   destruct (place_ok adds 0 placed size Hw ltac:(lia) ltac:(lia) Epl) as (Hsorted & Hsz & Hsz0).
   assert (Hwp : Forall (fun ao => farg_wf (fst ao)) placed).
